@@ -86,6 +86,7 @@ def plan(tier, seed):
                 for rev in (0, 1):
                     for m in maps(nb, na):
                         scs.append(dict(A=ai, B=bi, mode=mode, rev=rev, map=m))
+    scs += [dict(scale=i) for i in range(5)]
     return dict(scenarios=scs, exhaustive=True, chunk=200,
                 menus=dict(A=[x[0] for x in A_MENU], B=[x[0] for x in B_MENU], modes=MODES, term_direction=['as listed', 'reversed'],
                            maps='every injective partial map B->A' + (' (<=2 pairs in shared mode)' if tier == 'quick' else '')),
@@ -101,8 +102,53 @@ def reverse_terms(b):
             setattr(b, ATTR[k], arr[:, ::-1].copy())
 
 
+def chain(n, tag, cell=None, xf=False, shift=0.0):
+    """long typed chain: n atoms, n-1 bonds, n-2 angles, coefficient tables"""
+    kw = dict(atom_types=[i % 3 for i in range(n)], atom_type_elements=['C', 'N', 'O'], atom_type_labels=['C' + tag, 'N' + tag, 'O' + tag], atom_type_masses=[12.0, 14.0, 16.0],
+              pair_coeffs=['pc_%s_%d' % (tag, i) for i in range(3)], positions=np.array([(0.7 * (i % 40) + shift, 0.7 * ((i // 40) % 40), 0.7 * (i // 1600)) for i in range(n)]),
+              charges=[0.001 * (i % 97) for i in range(n)], groups=[i % 4 for i in range(n)],
+              bonds=[(i, i + 1) for i in range(n - 1)], bond_types=[i % 2 for i in range(n - 1)], bond_type_coeffs=['b_%s_0 1' % tag, 'b_%s_1 2' % tag],
+              angles=[(i, i + 1, i + 2) for i in range(n - 2)], angle_types=[0] * (n - 2), angle_type_coeffs=['a_%s_0 1' % tag])
+    if cell is not None:
+        kw['cell'] = cell
+    return Atoms(**kw)
+
+
+def scale_case(i):
+    """(A, B, identity map) beyond the small bound"""
+    if i == 0:      # 10-atom fragment, atoms 0..6 declared identical: three atoms (7, 8, 9) are appended
+        return chain(12, 'a'), chain(10, 'x', shift=30.0), {j: j + 2 for j in range(7)}
+    if i == 1:      # the same with a non-monotonic map
+        return chain(12, 'a'), chain(10, 'x', shift=30.0), {0: 11, 2: 3, 3: 2, 5: 0, 8: 7, 9: 1}
+    if i == 2:      # more than 1024 existing bonds; the fragment re-defines the last bonds (listed backwards) and the last angle
+        A = chain(1300, 'a'); B = chain(3, 'x', shift=50.0)
+        B.bonds = np.array([(1, 0), (2, 1)])
+        return A, B, {0: 1297, 1: 1298, 2: 1299}
+    if i == 3:      # atom indices beyond 100000
+        A = chain(100006, 'a'); B = chain(3, 'x', shift=50.0)
+        return A, B, {0: 100000, 1: 100001, 2: 100002}
+    A = chain(300, 'a'); B = chain(40, 'x', shift=50.0)      # a long fragment, every third atom declared identical
+    return A, B, {j: 299 - 2 * j for j in range(0, 40, 3)}
+
+
 def run(sc, ctx):
     out = dict(evals=0, compared=0, violations=[], outcomes={}, hashes=set(), nontrivial=0)
+    if 'scale' in sc:
+        A, B, m = scale_case(sc['scale'])
+        a = A.copy(); b = B.copy(); ref = RefStructure.of(A)
+        r, err = call(a.extend, b, structure_index_map=dict(m))
+        ref.extend(RefStructure.of(B, uid0=10 ** 7), m)
+        out['evals'] = 1; out['compared'] = 1; out['hashes'].add(h64(sc)); out['nontrivial'] = 1; out['outcomes']['scale %d' % sc['scale']] = 1
+        if err:
+            out['violations'].append(viol('extend-exact', 'scale-exc:' + exc_sig(err), 'extend raised %r (scale case %d: %d + %d atoms, %d mapped)' % (err[0], sc['scale'], len(A.atom_types), len(B.atom_types), len(m)), sc))
+            return out
+        try:
+            d = compare_views(view(a), ref.view())
+        except Inconsistent as e:
+            d = 'inconsistent object (%s): %s' % (e.clause, e)
+        if d:
+            out['violations'].append(viol('extend-exact', 'scale-view', 'scale case %d (%d + %d atoms, %d declared identical): %s' % (sc['scale'], len(A.atom_types), len(B.atom_types), len(m), d[:600]), sc))
+        return out
     A = A_MENU[sc['A']][1]()
     mode = sc['mode']
     if mode == 'shared':
